@@ -228,7 +228,7 @@ def typed_and_long(out: Outcome, rng, thorough: bool) -> None:
     array, NumPy booleans) must be accepted and give the same statistics as the equal Python numbers; (b) sequences of thousands of
     values: the running statistics keep their definition when 1/t is far below any fixed step-size floor"""
     import numpy as onp
-    casts = {"np.int64": onp.int64, "np.int32": onp.int32, "np.float64": onp.float64}   # unsigned and narrow float dtypes bring NumPy wrap-around / float32 rounding into the result: outside "every finite value sequence"
+    casts = {"np.int64": onp.int64, "np.int32": onp.int32, "np.float64": onp.float64, "bool": bool}   # unsigned and narrow float dtypes bring NumPy wrap-around / float32 rounding into the result: outside "every finite value sequence"
     for tname, cast in casts.items():
         xs = [rng.randint(0, 1) for _ in range(rng.randint(5, 60))]
         size = rng.choice([1, 3, 7])
